@@ -822,6 +822,153 @@ def p_script_code_raw(tx, spent, idx, ht):
     return p_digest_eq_reference(tx, spent, idx, ht)
 
 
+
+# ---------------------------------------------------------------------------
+# "the digest the library signs and VERIFIES": spends assembled by hand, every signature made over the REFERENCE
+# digest of its own hash type (so the signing side is the reference, not the library), then judged by
+# Tx.verify_input; relabelled signatures (hash-type byte replaced) must be judged by the digest of the NEW label.
+
+VD_KINDS = ["p2pkh", "p2wpkh", "p2sh-p2wpkh", "bare-multisig", "p2sh-multisig", "p2wsh-multisig", "p2sh-p2wsh-multisig",
+            "p2tr-key", "p2tr-script-checksig", "p2tr-script-checksigadd"]
+
+
+def _vd_spend(kind_i, n_in, n_out, idx, hts, salt):
+    """returns (tx value, spent, place) where place(sigs) gives the tx value with the signatures put in;
+    sigs: list aligned with the signing keys (script key order)"""
+    import random
+    from buidl.helper import hash160
+    from buidl.pecc import PrivateKey
+    from buidl.taproot import TapLeaf, TapScript as TapScr
+    kind = VD_KINDS[kind_i]
+    r = random.Random(salt * 1000003 + kind_i)
+    rb = lambda n: bytes(r.getrandbits(8) for _ in range(n))          # noqa: E731
+    multi = "multisig" in kind or kind.endswith("checksigadd")
+    n_keys = 1 if not multi else 2 + (salt % 2)
+    m = 1 if not multi else 2
+    privs = [PrivateKey(r.randrange(1, 2 ** 255)) for _ in range(n_keys)]
+    signers = sorted(r.sample(range(n_keys), m))
+    secs = [pk.point.sec() for pk in privs]
+    msig = [0x50 + m] + secs + [0x50 + n_keys, 0xae]
+    ins, spent = [], []
+    for k in range(n_in):
+        ins.append([rb(32), r.randrange(0, 4), S([]), r.choice([0xffffffff, 0xfffffffe, 0, 5]), []])
+        spent.append([r.randrange(600, 10 ** 8), S([0x76, 0xa9, rb(20), 0x88, 0xac])])
+    outs = [[r.randrange(600, 10 ** 6), S([0x76, 0xa9, rb(20), 0x88, 0xac])] for _ in range(n_out)]
+    annex = [b"\x50" + rb(salt % 5)] if kind.startswith("p2tr") and salt % 3 == 0 else []
+    me = ins[idx]
+    schnorr = kind.startswith("p2tr")
+    if kind == "p2pkh":
+        spent[idx][1] = S([0x76, 0xa9, hash160(secs[0]), 0x88, 0xac])
+        place = lambda sg: (S([sg[0], secs[0]]), [])                                    # noqa: E731
+    elif kind == "p2wpkh":
+        spent[idx][1] = S([0, hash160(secs[0])])
+        place = lambda sg: (S([]), [sg[0], secs[0]])                                    # noqa: E731
+    elif kind == "p2sh-p2wpkh":
+        redeem = b"\x00\x14" + hash160(secs[0])
+        spent[idx][1] = S([0xa9, hash160(redeem), 0x87])
+        place = lambda sg: (S([redeem]), [sg[0], secs[0]])                              # noqa: E731
+    elif kind == "bare-multisig":
+        spent[idx][1] = S(msig)
+        place = lambda sg: (S([0] + [sg[k] for k in signers]), [])                     # noqa: E731
+    elif kind == "p2sh-multisig":
+        redeem = ref_raw_script(S(msig))
+        spent[idx][1] = S([0xa9, hash160(redeem), 0x87])
+        place = lambda sg: (S([0] + [sg[k] for k in signers] + [redeem]), [])          # noqa: E731
+    elif kind == "p2wsh-multisig":
+        ws = ref_raw_script(S(msig))
+        spent[idx][1] = S([0, _sha(ws)])
+        place = lambda sg: (S([]), [b""] + [sg[k] for k in signers] + [ws])            # noqa: E731
+    elif kind == "p2sh-p2wsh-multisig":
+        ws = ref_raw_script(S(msig))
+        redeem = b"\x00\x20" + _sha(ws)
+        spent[idx][1] = S([0xa9, hash160(redeem), 0x87])
+        place = lambda sg: (S([redeem]), [b""] + [sg[k] for k in signers] + [ws])      # noqa: E731
+    elif kind == "p2tr-key":
+        spent[idx][1] = S([0x51, privs[0].point.tweaked_key().xonly()])
+        privs = [privs[0].tweaked_key()]
+        place = lambda sg: (S([]), [sg[0]] + annex)                                     # noqa: E731
+    else:
+        xs = [pk.point.xonly() for pk in privs]
+        if kind.endswith("checksig"):
+            cmds = [xs[0], 0xac]
+        else:
+            cmds = [xs[0], 0xac]
+            for x in xs[1:]:
+                cmds += [x, 0xba]
+            cmds += [0x50 + m, 0x9c]
+        leaf = TapLeaf(TapScr(cmds))
+        internal = PrivateKey(r.randrange(1, 2 ** 255)).point
+        spent[idx][1] = S([0x51, internal.tweaked_key(leaf.hash()).xonly()])
+        tail = [ref_raw_script(S(cmds)), leaf.control_block(internal).serialize()] + annex
+        place = lambda sg: (S([]), [sg[k] if k in signers else b"" for k in reversed(range(n_keys))] + tail)  # noqa: E731
+    return kind, privs, signers, schnorr, [2, ins, outs, salt % 7], spent, place
+
+
+def p_verifier_digest(kind_i, n_in, n_out, idx, hts, salt, nalt=0):
+    """A spend whose signatures are made over the REFERENCE digest of each signature's own hash type verifies; a
+    signature relabelled with another hash type verifies exactly when the reference digests of the two labels are
+    equal (SINGLE without a matching output under the legacy algorithm).  Different signatures of one multisig
+    input carry different hash types."""
+    kind, privs, signers, schnorr, txv, spent, place = _vd_spend(kind_i, n_in, n_out, idx, hts, salt)
+    n_keys = len(privs)
+
+    def with_sigs(sg):
+        ss, wit = place(sg)
+        v = copy.deepcopy(txv)
+        v[1][idx][2] = ss
+        v[1][idx][4] = wit
+        return v
+
+    def digest(ht):
+        d = ref_sig_hash(with_sigs([b"\x30" * 70] * n_keys), spent, idx, ht)
+        if d is None:
+            return None
+        return d[2] if isinstance(d[2], int) else int.from_bytes(d[2], "big")
+
+    def verdict(sg):
+        tx = mk_tx(with_sigs(sg), spent)
+        try:
+            with contextlib.redirect_stdout(io.StringIO()):
+                return bool(tx.verify_input(idx))
+        except Exception:  # noqa
+            return False
+
+    std = [0, 1, 2, 3, 0x81, 0x82, 0x83] if schnorr else [1, 2, 3, 0x81, 0x82, 0x83]
+    label = {}
+    for pos, k in enumerate(signers):
+        ht = hts[pos % len(hts)]
+        if ht not in std or digest(ht) is None:
+            ht = 1
+        label[k] = ht
+
+    def sign(k, ht_digest, ht_label):
+        z = digest(ht_digest)
+        if schnorr:
+            sig = privs[k].sign_schnorr(z.to_bytes(32, "big"), bytes(32)).serialize()
+            return sig if ht_label == 0 else sig + bytes([ht_label])
+        return privs[k].sign(z).der() + bytes([ht_label])
+
+    good = [sign(k, label[k], label[k]) if k in label else b"" for k in range(n_keys)]
+    if not verdict(good):
+        return (f"{kind}: a spend whose signatures are made over the reference digests of hash types "
+                f"{[hex(label[k]) for k in signers]} is rejected by verify_input")
+    for k in signers:
+        alts = [a for a in std if a != label[k]]
+        if nalt:                       # quick tier: nalt relabellings per signature, rotating with the salt
+            alts = [alts[(salt + k + j) % len(alts)] for j in range(nalt)]
+        for alt in alts:
+            da = digest(alt)
+            want = da is not None and da == digest(label[k])
+            bad = list(good)
+            bad[k] = sign(k, label[k], alt)
+            got = verdict(bad)
+            if got != want:
+                return (f"{kind}: signature of key {k} made over the digest of hash type {hex(label[k])} and relabelled "
+                        f"{hex(alt)} (other signatures: {[hex(label[j]) for j in signers if j != k]}) is "
+                        f"{'accepted' if got else 'rejected'}; the reference digests of the two labels are "
+                        f"{'equal' if want else 'different'}")
+    return None
+
 PROPS = {
     "digest_eq_reference": p_digest_eq_reference,
     "builders_eq_reference": p_builders_eq_reference,
@@ -830,6 +977,7 @@ PROPS = {
     "history_fresh": p_history_fresh,
     "history_ext": p_history_ext,
     "script_code_raw": p_script_code_raw,
+    "verifier_digest": p_verifier_digest,
 }
 
 
@@ -1149,6 +1297,21 @@ def generate(ctx):
         yield ("corr", "tap_leaf", [w])
     for w in ([], [b"\x01"], [b"\x50"], [b"\x01", b"\x50"]):
         yield ("corr", "tap_leaf", [w])
+
+    # --- the digest at the point of use: hand-assembled spends verified by Tx.verify_input
+    combos = [[1], [2], [3], [0x81], [0x82], [0x83], [0], [1, 0x82], [0x83, 1], [3, 2], [0, 0x81], [2, 0]]
+    salt = 0
+    for kind_i in range(len(VD_KINDS)):
+        shapes = [(1, 1, 0), (2, 1, 1), (3, 2, 2), (2, 3, 0), (1, 0, 0), (3, 1, 1)]
+        for j in range(ctx.n(3, 12)):
+            n_in, n_out, idx = shapes[(j + kind_i) % len(shapes)]
+            hts = combos[(j * 5 + kind_i) % len(combos)]
+            multi = "multisig" in VD_KINDS[kind_i] or VD_KINDS[kind_i].endswith("checksigadd")
+            if multi and len(hts) < 2:
+                hts = [hts[0], [1, 0x82, 3, 0x81][(j + kind_i) % 4]]
+            salt += 1
+            ctx.label("verifier_digest/" + VD_KINDS[kind_i] + ("/mixed-hash-types" if len(set(hts)) > 1 else ""))
+            yield ("prop", "verifier_digest", [kind_i, n_in, n_out, idx, hts, salt, 2 if ctx.tier == "quick" else 0])
 
     # --- the grid: 1..6 inputs x 0..6 outputs, every index, all hash types, every kind
     per_cell = ctx.n(4, 25)
